@@ -376,13 +376,17 @@ pub fn execute(sc: &AsyncScenario, sh: &Shared) -> Value {
                     v(tag, &["C14", "C02"], format!("lifetime {li} op {oi} (fake #{} site {}): {f}", op.func, op.site));
                 }
                 match r {
-                    Ok(()) if refused => v("install-succeeded-despite-refused-syscall", &["C05"], format!("lifetime {li} op {oi}: the OS refused ({}) yet faking async function #{} reported success", op.fault, op.func)),
                     Err(_) if refused => {
                         // a refused installation changes nothing: the function keeps the behaviour it had
                         awaits += 1;
                         check_await(li, oi, op.func, 17, &model, &mut digest, false);
                     }
                     Ok(()) => {
+                        // (an installation may legitimately survive a refused OS call, e.g. a
+                        // protection change it does not depend on: it is judged by behaviour)
+                        if refused {
+                            *probes.entry("install_succeeded_although_an_os_call_was_refused".into()).or_insert(0) += 1;
+                        }
                         fakes += 1;
                         if !model[op.func].is_empty() {
                             *probes.entry("async_refake_same_function".into()).or_insert(0) += 1;
